@@ -413,6 +413,15 @@ func (m *SignMessage) Sign(rand io.Reader, external []byte, signers ...Signer) e
 		return fmt.Errorf("%d signers for %d signatures", len(signers), len(m.Signatures))
 	}
 
+	// insert the signers' algorithms before the body protected header is
+	// encoded: the body may share its header map with one of the signatures.
+	// Errors are reported by Signature.Sign below.
+	for i, signature := range m.Signatures {
+		if signature != nil && len(signature.Signature) == 0 {
+			_ = signature.Headers.ensureSigningAlgorithm(signers[i].Algorithm(), external)
+		}
+	}
+
 	// populate common parameters
 	var protected cbor.RawMessage
 	protected, err := m.Headers.MarshalProtected()
